@@ -213,6 +213,63 @@ def oracle_analyze(ctx, rng, n):
         shutil.rmtree(d, ignore_errors=True)
 
 
+def sort_correspondence(ctx, rng, n):
+    """Model/HotspotSort.lean vs the sorting block of the real hotspot.analyze: mock reactors (several types declared in random
+    order, ids interleaved, every assembly with its own distinguishable nominal temperatures), unity table; which row ends up
+    next to which id must be what the model says"""
+    import types as _types
+    from dassh import hotspot
+    from harness import modelio
+    if not modelio.build_driver(ctx):
+        return
+    d = str(ctx.work / "hssort")
+    os.makedirs(d, exist_ok=True)
+    path = os.path.join(d, "unity.csv")
+    open(path, "w").write(UNITY)
+    reqs, obs = [], []
+    for k in range(n):
+        n_asm = rng.randint(2, 9)
+        n_typ = rng.randint(1, min(4, n_asm))
+        names = ["ty%d" % i for i in range(n_typ)]
+        owner = [rng.choice(names) for _ in range(n_asm)]
+        for i, nm in enumerate(names):        # every type occurs
+            owner[i % n_asm] = nm if nm not in owner else owner[i % n_asm]
+        order = names[:]
+        rng.shuffle(order)
+        asms = []
+        for aid in range(n_asm):
+            tc = 700.0 + 13.0 * aid
+            row = [0.0, 1.0, 100.0, tc, tc + 5.0 + aid, tc + 11.0 + 2 * aid, tc + 20.0, tc + 60.0, tc + 300.0]
+            peak = {'cool': (tc + 2.0, 1.0), 'pin': {kk: [row[j + 4], j + 4, list(row)] for j, kk in
+                                                    enumerate(['clad_od', 'clad_mw', 'clad_id', 'fuel_od', 'fuel_cl'])}}
+            asms.append(_types.SimpleNamespace(id=aid, name=owner[aid], _peak=peak))
+        present = [nm for nm in order if nm in owner]
+        hs = {'clad_mw': {'input_sigma': 3, 'output_sigma': 2, 'subfactors': path}}
+        r = _types.SimpleNamespace(inlet_temp=650.0, assemblies=asms, _options={'hotspot': {nm: dict(hs) for nm in present}})
+        temps, ids = hotspot.analyze(r)
+        concat = [a.id for nm in present for a in asms if a.name == nm]      # concatenation order of the per-type results
+        # identify the row next to every id by its (unique) coolant temperature
+        got = []
+        for i, rid in zip(ids['clad_mw'], np.asarray(temps['clad_mw'], dtype=float)):
+            src = int(round((rid[0] - 700.0) / 13.0))          # assembly whose nominal temperatures this row holds
+            got.append("%d:%d" % (int(i), concat.index(src)))
+        reqs.append("hssort " + " ".join(map(str, concat)))
+        obs.append(got)
+    bad = 0
+    for rep, got, rq in zip(modelio.ask(reqs), obs, reqs):
+        parts = rep.split()
+        if parts[0] != "ok" or parts[1:] != got:
+            bad += 1
+            if bad == 1:
+                ctx.problem("correspondence", "Model.HotspotSort.sortById vs hotspot.analyze",
+                            "%s -> model %s, code %s" % (rq, parts[1:], got))
+    ctx.obligation("correspondence: Model.HotspotSort.sortById = id/row pairing of hotspot.analyze on %d mock reactors" % n,
+                   bad == 0, kind="correspondence", detail="disagreements %d" % bad)
+    ctx.evals += n
+    import shutil
+    shutil.rmtree(d, ignore_errors=True)
+
+
 def run(ctx):
     rng = random.Random(19000 + ctx.seed)
     ctx.rule = ("oracle: random subfactor tables (1-4 assemblies, 1/3/5 terms, 1-6 rows), sigma levels 0-4; all built-in tables x "
@@ -228,6 +285,8 @@ def run(ctx):
         ctx.prove("Dassh.Props.C19")
     oracle(ctx, rng, 400 if ctx.thorough else 80)
     oracle_analyze(ctx, rng, 12 if ctx.thorough else 4)
+    ctx.prove("Dassh.Props.C19Sort")
+    sort_correspondence(ctx, rng, 200 if ctx.thorough else 60)
     ctx.nontrivial = ctx.evals
     ctx.traces = ctx.evals
     ctx.trusted += ["T1 trace of hotspot.calculate_temps at a fixed small shape (2+2 subfactor rows, 3 terms); other shapes are "
